@@ -105,6 +105,12 @@ Section BehaveProofs.
   Qed.
 End BehaveProofs.
 
+(* a fresh copy per failure: every failing call of every history returns the pristine fallback, whatever the caller
+   did to the fallbacks returned before *)
+Lemma try_hist_fresh {R} (mut : R -> R) (v : R) (outs : list (lres R)) :
+  try_hist true mut v outs = map (fun o => match o with LOk r => r | LErr _ => v end) outs.
+Proof. induction outs as [|[r|e] outs IH]; simpl; congruence. Qed.
+
 (* ================================================================== cache *)
 Lemma F2_impl {A B} (P Q : A -> B -> Prop) l l' : (forall a b, P a b -> Q a b) -> Forall2 P l l' -> Forall2 Q l l'.
 Proof. intros H. induction 1; constructor; auto. Qed.
